@@ -27,13 +27,29 @@ def outcomeNodes (line : String) : Except String (List Node) :=
     | .error e => .error ("unparsable outcome: " ++ e)
   else .error "not a tree outcome"
 
+/-- C12, "word values are non-empty strings": the clause is kept apart from `schemaOK` (and from
+    `C12_partial`) because it is false of the unchanged library for a word made of quotes only
+    (`a ""`: the value is the empty string, as quote removal demands).  Contexts: `+quotes-only` (the
+    source under the span consists of quote characters), `+heredoc-delimiter` (reported on the
+    redirect: the delimiter word of `<<` / `<<-` is the raw token in the unchanged library). -/
+def emptyWords (src : Str) (n : Node) : List Viol :=
+  n.preorder.flatMap fun m =>
+    match m with
+    | .redirect _ _ ty (some (.word _ w _)) _ _ _ =>
+      if w.isEmpty && (ty == "<<".toList || ty == "<<-".toList) then ["word-empty+heredoc-delimiter"] else []
+    | .word p w _ | .assignment p w _ =>
+      if !w.isEmpty then [] else
+      let t := Str.slice src p.1 p.2
+      ["word-empty" ++ (if !t.isEmpty && t.all (fun c => c == '\'' || c == '"' || c == '$') then "+quotes-only" else "")]
+    | _ => []
+
 def evalProp (prop : String) (src : Str) (parts : List Node) (dbg : Bool := false) : List Viol :=
   match prop with
   | "C03" => (parts.map (spansWF src.length · dbg)).flatten ++
       (if ordered parts then [] else ["top-level-parts-unordered"])
   | "C04" => (parts.map (textOK src · dbg)).flatten
   | "C05" => coverOK src parts
-  | "C12" => (parts.map (schemaOK · dbg)).flatten
+  | "C12" => (parts.map (schemaOK · dbg)).flatten ++ (parts.map (emptyWords src)).flatten
   | "C06" => quoteOKL src "" parts
   | _ => ["unknown-property"]
 
